@@ -11,6 +11,7 @@
   every eval oracle, every hit history.  No bound.
 -/
 import DeepModel.Proofs.Metric
+import DeepModel.Proofs.C17Prom
 
 namespace C17
 open Metric Extracted.Expr Extracted.Limiter
@@ -334,5 +335,79 @@ example : (callsTo 1 (process evm [⟨[0]⟩, ⟨[]⟩] defs1)).map (fun c => (c
 example : (callsTo 0 (process evm [⟨[0]⟩, ⟨[]⟩] defs1)).map (·.op) = ["gauge"] := by decide
 example : labelsOf evm [⟨"a", some "x", none⟩, ⟨"b", none, some "n"⟩, ⟨"a", none, some "zz"⟩]
     = [("a", .text "name 'zz' is not defined"), ("b", .text "7")] := by decide
+
+/-! ### the built-in Prometheus processor: "through the operation matching its type", down to the client library
+
+  About `C17Prom.call / run` (Model/C17Prom.lean) over `Extracted.C17Prom.cacheKey / methods` (regenerated from
+  `prometheus_metrics.py` on every run).  Quantifiers: every sequence of processor operations with any arguments
+  (names, label dicts, namespace / help / unit present or not, any value), every plugin state reached from a fresh
+  plugin.  No bound.  The client library itself (`construct`, `childFor`, `applyOp`) is a hand-written reading of
+  prometheus_client, compared with the real library on every generated sequence. -/
+
+/-- tripwire: the four operations of the processor interface, each constructing the client class of its own type
+    and handing the value to that class's adding operation (`Counter.inc`, `Gauge.inc`, `Histogram.observe`,
+    `Summary.observe`) under `except Exception`; the operation names are exactly those `_process_action` dispatches to -/
+theorem c17_prom_operation :
+    Extracted.C17Prom.methods.map (fun r => (r.1, r.2.typeName, r.2.cls, r.2.op, r.2.opArg, r.2.guard)) =
+      [("counter", "counter", .counter, .inc, .value, some .exc), ("gauge", "gauge", .gauge, .inc, .value, some .exc),
+       ("histogram", "histogram", .histogram, .observe, .value, some .exc),
+       ("summary", "summary", .summary, .observe, .value, some .exc)] ∧
+    Extracted.C17Prom.methods.map (·.1) = processorSignatures.map (·.1) ∧
+    Extracted.C17Prom.methods.map (fun r => (r.2.ctorName, r.2.ctorDoc, r.2.ctorLabelnames, r.2.ctorNamespace, r.2.ctorUnit)) =
+      List.replicate 4 (.name, .help, .labelKeys, .namespace, .unit) := ⟨rfl, rfl, rfl⟩
+
+/-- **one object per (name, type)** — the cache key separates every two (name, type) pairs: metrics of different
+    names or different types never share a client object, whatever the names are (underscores included). -/
+theorem c17_prom_key_injective (n1 n2 t1 t2 : String) (h1 : t1 ∈ C17Prom.typeNames) (h2 : t2 ∈ C17Prom.typeNames)
+    (h : Extracted.C17Prom.cacheKey n1 t1 = Extracted.C17Prom.cacheKey n2 t2) : n1 = n2 ∧ t1 = t2 :=
+  C17Prom.cacheKey_injective n1 n2 t1 t2 h1 h2 h
+
+/-- **one registration per key** — after any sequence of operations on a fresh plugin the cache holds every key
+    once (each cached object was constructed — registered — exactly once, later reports reuse it). -/
+theorem c17_prom_one_registration (calls : List (String × C17Prom.Args)) :
+    ((C17Prom.run C17Prom.Plugin.empty calls).1.cache.map Prod.fst).Nodup :=
+  C17Prom.run_keys_nodup calls _ (by simp [C17Prom.Plugin.empty])
+
+/-- **the value reaches the client library** — in every state reached from a fresh plugin, a report that the
+    client library accepts adds exactly its value to one time series of the object cached for (name, type) — counter
+    total / gauge value / histogram and summary sum grow by the value and the series' operation count by one — and no
+    time series of any other (name, type) changes. -/
+theorem c17_prom_value (history : List (String × C17Prom.Args)) (op : String) (m : Extracted.C17Prom.Method)
+    (a : C17Prom.Args) (p' : C17Prom.Plugin) (hm : (op, m) ∈ Extracted.C17Prom.methods)
+    (h : C17Prom.call (C17Prom.run C17Prom.Plugin.empty history).1 m a = (p', .ok)) :
+    let p := (C17Prom.run C17Prom.Plugin.empty history).1
+    let key := Extracted.C17Prom.cacheKey a.name m.typeName
+    ∃ lv, C17Prom.sampleOf p' key lv =
+        some ⟨((C17Prom.sampleOf p key lv).getD C17Prom.Acc.zero).count + 1,
+              ((C17Prom.sampleOf p key lv).getD C17Prom.Acc.zero).sum + a.value⟩ ∧
+      (∀ k' lv', k' ≠ key → C17Prom.sampleOf p' k' lv' = C17Prom.sampleOf p k' lv') :=
+  C17Prom.call_ok_value _ p' op m a hm (C17Prom.run_WF history _ C17Prom.WF_empty) h
+
+/-- **a refused report stays inside the processor** — whatever the client library answers, no operation of the
+    plugin lets the failure out as an exception (the metric action and the other processors go on). -/
+theorem c17_prom_no_escape (op : String) (m : Extracted.C17Prom.Method) (hm : (op, m) ∈ Extracted.C17Prom.methods)
+    (o : C17Prom.Outcome) : C17Prom.propagates m o = false := by
+  have := (C17Prom.table_op op m hm).2.1
+  simp [C17Prom.propagates, this]
+
+/-- witness (suspicious behaviour, see notes/probes/c17_prom_cache_key.py): the cache key carries neither the
+    namespace nor the unit nor the label names — a second metric of the same name and type but another namespace is
+    accepted and counted on the FIRST metric's time series (`a_hits`), nothing appears under `b_hits`. -/
+theorem c17_prom_namespace_witness :
+    let r := C17Prom.run C17Prom.Plugin.empty
+      [("counter", ⟨"hits", [], some "a", none, none, 4⟩), ("counter", ⟨"hits", [], some "b", none, none, 4⟩)]
+    r.2 = [some .ok, some .ok] ∧
+    r.1.cache.map (fun kf => (kf.2.fullName, kf.2.children)) = [("a_hits", [([], ⟨2, 8⟩)])] := by decide
+
+/-- non-vacuity of `c17_prom_value`: a labelled histogram observed twice (label dict in two orders), a gauge going
+    down, a counter refusing a negative step -/
+example : (C17Prom.run C17Prom.Plugin.empty
+      [("histogram", ⟨"lat", [("k", "x"), ("env", "p")], some "deep", none, some "ms", 3⟩),
+       ("histogram", ⟨"lat", [("env", "p"), ("k", "x")], some "deep", none, some "ms", 5⟩),
+       ("gauge", ⟨"g", [], some "deep", some "h", none, -6⟩),
+       ("counter", ⟨"c_total", [], none, none, none, -1⟩)]).1.cache.map
+        (fun kf => (kf.1, kf.2.fullName, kf.2.children)) =
+    [("lat_histogram", "deep_lat_ms", [(["x", "p"], ⟨2, 8⟩)]), ("g_gauge", "deep_g", [([], ⟨1, -6⟩)]),
+     ("c_total_counter", "c", [([], ⟨0, 0⟩)])] := by decide
 
 end C17
